@@ -171,6 +171,7 @@ type world struct {
 	eps                  [2][2]*endpoint
 	bySess               map[erpc.CtxSession]*endpoint
 	callPaths, pushPaths [2]string // [0] function handler, [1] struct controller method
+	ws                   *wsNet    // websocket configurations only
 	binderPath           string    // CALL route whose argument struct is filled by plugin/binder ("" = not used)
 	arrivals             [10]int64 // invocations per handler route, for the overlap yield
 	workers              []*worker
@@ -225,7 +226,11 @@ func newWorld(cfg *RunCfg, st *Stats, cw *CaseWriter, gz *GzipRecorder, ci int, 
 	hsWorld.Store(w) // the handshake plugin runs while the sessions are being built
 	w.pf = pf
 	w.srv = erpc.NewPeer(erpc.PeerConfig{DefaultBodyCodec: "plain"}, viewPlugin{}, hsPlugin{}, binder.NewStructArgsBinder(nil))
-	w.cli = erpc.NewPeer(erpc.PeerConfig{DefaultBodyCodec: "plain"}, viewPlugin{}, hsPlugin{}, binder.NewStructArgsBinder(nil))
+	cliPlugins := []erpc.Plugin{viewPlugin{}, hsPlugin{}, binder.NewStructArgsBinder(nil)}
+	if isWs(spec.proto) {
+		cliPlugins = append([]erpc.Plugin{wsDialPlugin()}, cliPlugins...)
+	}
+	w.cli = erpc.NewPeer(erpc.PeerConfig{DefaultBodyCodec: "plain"}, cliPlugins...)
 	// every handler exists twice: as a function (RouteCallFunc / RoutePushFunc) and as a method
 	// of a struct controller that embeds the context (RouteCall / RoutePush); the controller
 	// object is pooled per method by the router
@@ -262,9 +267,26 @@ func newWorld(cfg *RunCfg, st *Stats, cw *CaseWriter, gz *GzipRecorder, ci int, 
 		w.callPaths = [2]string{cs, pick(ctlCall, "s")}
 		w.pushPaths = [2]string{ps, pick(ctlPush, "s")}
 	}
+	if isWs(spec.proto) {
+		if err := w.wsServe(); err != nil {
+			statFail(st, -1, "call-failed", "websocket server: "+err.Error(), spec.String())
+			return nil
+		}
+	}
 	for p := 0; p < 2; p++ {
 		nameA, nameB := fmt.Sprintf("c01-%d-%d-A", ci, p), fmt.Sprintf("c01-%d-%d-B", ci, p)
-		pair, cliConn, srvConn := w.servePair(nameA, nameB, pf)
+		var pair *Pair
+		var cliConn, srvConn *ScriptConn
+		if isWs(spec.proto) {
+			var err error
+			if pair, err = w.wsPair(); err != nil {
+				statFail(st, -1, "call-failed", "could not establish websocket session pair for "+spec.String()+": "+err.Error(), spec.String())
+				w.wsClose()
+				return nil
+			}
+		} else {
+			pair, cliConn, srvConn = w.servePair(nameA, nameB, pf)
+		}
 		if pair.SrvSess == nil || pair.CliSess == nil {
 			statFail(st, -1, "call-failed", "could not establish session pair for "+spec.String(), spec.String())
 			return nil
@@ -313,13 +335,29 @@ func (w *world) fail(key, what, human string) {
 	statFail(w.st, w.cw.Total, key, w.spec.String()+": "+what, human)
 }
 
+// failKnown reports a failure class listed in known_findings.txt: it is recorded (once per
+// configuration) but does not stop the configuration.
+func (w *world) failKnown(key, what, human string) {
+	w.dmu.Lock()
+	if w.failN == nil {
+		w.failN = map[string]int{}
+	}
+	w.failN[key]++
+	n := w.failN[key]
+	w.dmu.Unlock()
+	if n > 1 {
+		return
+	}
+	statFail(w.st, w.cw.Total, key, w.spec.String()+": "+what, human)
+}
+
 // abortNow gives up on the configuration at once (a structural violation was seen: the byte
 // streams are no longer worth driving): the connections are cut so that every pending call
 // returns instead of waiting for the watchdog.
 func (w *world) abortNow() {
 	if atomic.CompareAndSwapInt32(&w.aborted, 0, 1) {
 		for _, ep := range w.allEps() {
-			ep.conn.Close()
+			ep.cut()
 		}
 	}
 }
@@ -332,8 +370,8 @@ func (w *world) teardown() {
 		defer close(done)
 		for p := 0; p < 2; p++ {
 			if w.isAborted() {
-				w.eps[p][0].conn.Close()
-				w.eps[p][1].conn.Close()
+				w.eps[p][0].cut()
+				w.eps[p][1].cut()
 				continue
 			}
 			w.pairs[p].CliSess.Close()
@@ -341,13 +379,14 @@ func (w *world) teardown() {
 		}
 		w.cli.Close()
 		w.srv.Close()
+		w.wsClose()
 	}()
 	select {
 	case <-done:
 	case <-time.After(5 * time.Second):
 		for p := 0; p < 2; p++ {
-			w.eps[p][0].conn.Close()
-			w.eps[p][1].conn.Close()
+			w.eps[p][0].cut()
+			w.eps[p][1].cut()
 		}
 	}
 }
@@ -866,11 +905,17 @@ func (w *world) complete(ep *endpoint, op *opRec, cmd erpc.CallCmd, res interfac
 	if op.refuse {
 		// the handler refused: the call must complete with exactly that refusal, never OK
 		switch {
+		case stat.OK() && w.spec.proto == "wspb":
+			// known finding (also C04 ws-subproto-no-status): the protobuf sub-protocol of the
+			// websocket mixer has no status field, so every refusal arrives as OK
+			w.failKnown("wspb-no-status", fmt.Sprintf("call %s, which its handler REFUSED, completed with an OK status and result %q: mixer/websocket/pbSubProto frames carry no status", op.tag, clip(string(body), 160)), human())
 		case stat.OK():
 			w.fail("result-foreign", fmt.Sprintf("call %s, which its handler REFUSED, completed with an OK status and result %q (the result variable still holds what an earlier call left there)", op.tag, clip(string(body), 160)), human())
 		case w.isAborted():
-		case stat.Code() != refuseCode || stat.Msg() != "refused:"+op.tag:
-			w.fail("result-foreign", fmt.Sprintf("refused call %s completed with status %s, which is not its own handler's refusal", op.tag, stat.String()), human())
+		case stat.Code() != refuseCode:
+			w.fail("call-failed", fmt.Sprintf("refused call %s completed with status %s instead of its handler's refusal", op.tag, stat.String()), human())
+		case stat.Msg() != "refused:"+op.tag:
+			w.fail("result-foreign", fmt.Sprintf("refused call %s completed with status %s, which is another call's refusal", op.tag, stat.String()), human())
 		case !kvEqual(op.rmeta, wantMeta):
 			w.fail("result-foreign", fmt.Sprintf("reply metadata of refused call %s: got %s want %s", op.tag, kvString(op.rmeta), kvString(wantMeta)), human())
 		}
